@@ -580,6 +580,8 @@ def run(ctx: Ctx) -> Result:
 
     vios = []
     for sig in sorted(vio):
+        # simplest input first (it becomes the replay file)
+        vio[sig].sort(key=lambda pw: len(str(pw[0].get('source', ''))))
         for payload, what in vio[sig]:
             vios.append(Violation(
                 sig, f'{what} [{vio_n[sig]} case(s) in total]', payload))
